@@ -14,7 +14,8 @@
 (*                                                                         *)
 (* A build case is structural (what TLC chooses and the harness            *)
 (* materialises): an engine (<= 3 algorithms of kind task / analysis, 1-2  *)
-(* state vectors with 1-2 values, declared inputs), the known targets, and *)
+(* state vectors with 1-2 values -- or none: such a state vector is not a  *)
+(* versioned element --, declared inputs), the known targets, and          *)
 (* the persisted version list of every element -- either given directly    *)
 (* (mode "direct": absent / empty / older / newer / look-alike / several   *)
 (* without the current one for the elements of the bump set D; same /      *)
@@ -47,8 +48,9 @@ MkEngine(scheme, kinds, shapes, edges) ==
                   kind |-> kinds[i], ver |-> <<i, 1, 1>>,
                   svs |-> [s \in DOMAIN shapes[i] |->
                              [name |-> SvName(s), ver |-> <<i, 1 + s, 1>>,
-                              vals |-> [v \in 1..shapes[i][s] |->
-                                          [name |-> ValName(v), ver |-> <<i, 1 + s, 1 + v>>]]]]]],
+                              vals |-> IF shapes[i][s] = 0 THEN <<>>
+                                       ELSE [v \in 1..shapes[i][s] |->
+                                               [name |-> ValName(v), ver |-> <<i, 1 + s, 1 + v>>]]]]]],
      edges |-> SetToSeq(edges)]        \* <<i, j>>: algorithm j declares algorithm i as input
 
 Shapes1 == { <<1>>, <<2>>, <<1, 1>>, <<1, 2>>, <<2, 1>>, <<2, 2>> }   \* values per state vector
@@ -58,16 +60,25 @@ Engines2 == { MkEngine(sc, <<k1, k2>>, << <<2>>, <<1, 1>> >>, ed) :
 Engines3 == { MkEngine(sc, <<k1, k2, k3>>, << <<2>>, <<1, 1>>, <<1>> >>, ed) :
                 sc \in Schemes, k1 \in Kinds, k2 \in Kinds, k3 \in Kinds,
                 ed \in SUBSET { <<1, 2>>, <<1, 3>>, <<2, 3>> } }
+(* shapes with a state vector that declares no value (0): such a state vector is not
+   a versioned element -- version.current() must not report it and nothing can ever
+   persist its version; it comes first so that Pick() takes an ordinary one *)
+Engines1E == { MkEngine("pkgs", <<k>>, <<sh>>, {}) : k \in Kinds, sh \in { <<0, 1>>, <<0, 2>> } }
+Engines2E == { MkEngine(sc, <<k1, k2>>, << <<0, 1>>, <<1>> >>, { <<1, 2>> }) :
+                sc \in Schemes, k1 \in Kinds, k2 \in Kinds }
 Engines1Q == { MkEngine("pkgs", <<k>>, <<sh>>, {}) : k \in Kinds, sh \in { <<1>>, <<2>>, <<1, 1>>, <<1, 2>> } }
 Engines3Q == { MkEngine(sc, <<k1, k2, k3>>, << <<2>>, <<1, 1>>, <<1>> >>, ed) :
                 sc \in Schemes, k1 \in Kinds, k2 \in Kinds, k3 \in Kinds,
                 ed \in { {}, { <<1, 2>>, <<2, 3>> } } }
-EnginesH1 == { MkEngine("pkgs", <<k>>, <<sh>>, {}) : k \in Kinds, sh \in { <<1>>, <<2>>, <<1, 1>> } }
+EnginesH1 == { MkEngine("pkgs", <<k>>, <<sh>>, {}) : k \in Kinds, sh \in { <<1>>, <<2>>, <<1, 1>>, <<0, 1>> } }
+EnginesHQ == { MkEngine("pkgs", <<"task">>, << <<2>> >>, {}), MkEngine("pkgs", <<"analysis">>, << <<0, 1>> >>, {}) }
 EnginesH2 == { MkEngine(sc, ks, << <<1>>, <<1>> >>, { <<1, 2>> }) :
                 sc \in Schemes, ks \in { <<"task", "analysis">>, <<"analysis", "task">> } }
 
-(* elements of an engine as index paths <<alg>>, <<alg, sv>>, <<alg, sv, val>> *)
-Idx(e) == UNION { {<<i>>} \cup UNION { {<<i, s>>} \cup { <<i, s, v>> : v \in DOMAIN e.algs[i].svs[s].vals }
+(* versioned elements of an engine as index paths <<alg>>, <<alg, sv>>, <<alg, sv, val>>;
+   a state vector without values is not one *)
+Idx(e) == UNION { {<<i>>} \cup UNION { IF e.algs[i].svs[s].vals = <<>> THEN {}
+                                        ELSE {<<i, s>>} \cup { <<i, s, v>> : v \in DOMAIN e.algs[i].svs[s].vals }
                                         : s \in DOMAIN e.algs[i].svs }
                   : i \in DOMAIN e.algs }
 ElSeq(e) == SetToSeq(Idx(e))
@@ -167,10 +178,17 @@ PlanQuick == { DirectPlan(Engines1Q, "all", StyleQuick, {3}, {T2}),
                DirectPlan(Engines1Q, "all", StyleOne, {2}, {T0}),
                DirectPlan(Engines2, "byalg", StyleQuick, {2}, {T2}),
                DirectPlan(Engines2, "byalg", StyleOne, {1}, {T0}),
-               DirectPlan(Engines3Q, "same", StyleOne, {1}, {T2}) }
-PlanT1 == { DirectPlan(Engines1, "all", StyleCover, {3}, {T0, T1, T2}),
-            DirectPlan(Engines1, "all", StyleQuick, {1, 2}, {T2}) }
-PlanT2 == { DirectPlan(Engines2, "byalg", StyleCover, {2}, {T0, T1, T2}) }
+               DirectPlan(Engines3Q, "same", StyleOne, {1}, {T2}),
+               DirectPlan(Engines1E, "all", StyleQuick, {3}, {T2}),
+               DirectPlan(Engines1E, "all", StyleOne, {2}, {T0}),
+               DirectPlan(Engines2E, "byalg", StyleOne, {2}, {T2}),
+               \* a small part of the real database in quick: with field 3 the older version of the
+               \* first value is the current version of its state vector
+               HistPlan(EnginesHQ, "all", {3}, {T2}) }
+PlanT1 == { DirectPlan(Engines1 \cup Engines1E, "all", StyleCover, {3}, {T0, T1, T2}),
+            DirectPlan(Engines1 \cup Engines1E, "all", StyleQuick, {1, 2}, {T2}) }
+PlanT2 == { DirectPlan(Engines2, "byalg", StyleCover, {2}, {T0, T1, T2}),
+            DirectPlan(Engines2E, "byalg", StyleQuick, {2}, {T0, T2}) }
 PlanT3 == { DirectPlan(Engines3, "byalg", StyleQuick, {1}, {T2}),
             DirectPlan(Engines3, "same", StyleOne, {2}, {T0}) }
 PlanH1 == { HistPlan(EnginesH1, "all", {3}, {T2}) }
